@@ -2,7 +2,8 @@
 
 (a) ChannelCache: one channel's cache against its ground truth (component level, real singleChannelCacheImpl)
 (b) Changes:      the multi-channel feed on real databases in four cache configurations (system level)
-(c) Listener:     wake-up of waiting feeds - liveness of the model under fairness (TLC only)
+(c) Listener:     wake-up of waiting feeds - liveness of the model under fairness (TLC), and continuous feeds racing with
+                  writers on a real database (eventual delivery judged by TLC on the recorded rows, reproduce-twice rule)
 """
 import json
 import os
@@ -11,9 +12,9 @@ from vlib.core import *
 SPEC_A = os.path.join(VERIF, "specs", "ChannelCache")
 SPEC_B = os.path.join(VERIF, "specs", "Changes")
 SPEC_C = os.path.join(VERIF, "specs", "Listener")
-# TLC runs here are small and many; on a shared machine the default GC/JIT thread counts cost more than they give
 DEV_NO_MC = bool(os.environ.get("VERIF_C01_DEV_NO_MC"))   # development aid (mutation runs): skip the exhaustive model checks
 HARNESS = ["harness/db/c01_channelcache_test.go", "harness/db/c01_changes_test.go"]
+# TLC runs here are small and many; on a shared machine the default GC/JIT thread counts cost more than they give
 JOPT = {"JAVA_TOOL_OPTIONS": "-XX:ParallelGCThreads=2 -XX:CICompilerCount=2"}
 
 
@@ -80,20 +81,17 @@ def run(ctx):
         jobs["behA1"] = lambda: beh(ctx, SPEC_A, "MC_ChannelCache", "Beh_ChannelCache_thorough.cfg", "behA1", timeout=6000)
     jobs["simA"] = lambda: beh(ctx, SPEC_A, "MC_ChannelCache", "Sim_ChannelCache.cfg", "simA", num=150 if q else 3000, depth=14)
     jobs["behB"] = lambda: beh(ctx, SPEC_B, "MC_Changes", "Beh_Changes.cfg", "behB")        # every 2-write history of one document
-    jobs["simB"] = lambda: beh(ctx, SPEC_B, "MC_Changes", "Sim_Changes.cfg", "simB", num=10 if q else 250, depth=10)
+    jobs["simB"] = lambda: beh(ctx, SPEC_B, "MC_Changes", "Sim_Changes.cfg", "simB", num=10 if q else 200, depth=10)
     res = parallel(jobs)
     a = gen_a(ctx, res["behA1"] + res.get("behA2", []) + res["simA"])
     b = gen_b(ctx, res["behB"], res["simB"])
     # one go test invocation (one link of the db test binary) runs both harnesses
     ctr = os.path.join(ctx.scratch, "c01c.ndjson")
-    cenv = {"VERIF_TRACE_OUT_C": ctr, "VERIF_C01_CONT_ROUNDS": 2 if ctx.quick() else 12}
+    cenv = {"VERIF_TRACE_OUT_C": ctr, "VERIF_C01_CONT_ROUNDS": 2 if ctx.quick() else 8}
     rc, out = go_test(ctx, "db", "^TestVerif_C01_(ChannelCache|Changes|Continuous)$", HARNESS, env=dict(a["env"], **b["env"], **cenv),
                       timeout=1800 if ctx.quick() else 7200)
     if rc != 0 or not os.path.exists(a["tr"]) or not os.path.exists(b["tr"]) or not os.path.exists(ctr):
         raise Inconclusive("C01 harness failed:\n" + harness_failure(out))
-    for l in out.splitlines():
-        if "VERIF-TIMING" in l:
-            log("  " + l.strip())
     # the five trace validations are independent TLC runs
     vres = parallel({
         "aP": lambda: validate(ctx, SPEC_A, "Trace_ChannelCache", "Trace_ChannelCache_P.cfg", a["tr"], timeout=3000 if q else 12000, env=JOPT, tag="aP"),
@@ -168,7 +166,7 @@ def check_a(ctx, a, vp, vc):
         fail = rows[line - 1]
         key = "a:%s:%s:%s" % (vp.inv, json.dumps(beh, sort_keys=True), fail["a"])
         report_violation(ctx, key, "real singleChannelCacheImpl breaks %s at trace line %d (behaviour %s, after %s)" % (vp.inv, line, beh_idx, fail["a"]),
-                         {"part": "ChannelCache", "behaviour": beh, "invariant": vp.inv, "failing_line": trim(fail), "state": (vp.state or {}).get("_txt")})
+                         {"part": "ChannelCache", "behaviour": beh, "invariant": vp.inv, "failing_line": trim(fail), "state": (vp.state or {}).get("_txt", [])[:80]})
         return
     if not vp.accepted:
         raise Inconclusive("C01(a) pass P stopped at line %s of %s (trace shape not accepted)\n%s" % (vp.line, vp.total, vp.out[-1500:]))
@@ -220,8 +218,8 @@ def gen_b(ctx, behs, sims):
     bf = os.path.join(ctx.scratch, "c01b-beh.json")
     tr = os.path.join(ctx.scratch, "c01b.ndjson")
     write_json(bf, behs)
-    return {"behs": behs, "tr": tr, "env": {"VERIF_BEH_B": bf, "VERIF_TRACE_OUT_B": tr, "VERIF_C01_MID_GROUPS": 3 if q else 6,
-                                            "VERIF_C01_FINAL_GROUPS": 10 if q else 30, "VERIF_C01_EPOCH": 8}}
+    return {"behs": behs, "tr": tr, "env": {"VERIF_BEH_B": bf, "VERIF_TRACE_OUT_B": tr, "VERIF_C01_MID_GROUPS": 3 if q else 5,
+                                            "VERIF_C01_FINAL_GROUPS": 10 if q else 24, "VERIF_C01_EPOCH": 8}}
 
 
 def check_b(ctx, b, vp, vc):
